@@ -319,8 +319,15 @@ func verdictOf(c Cond) (*ssa.Call, verdictTest, bool) {
 		}
 	}
 	if k.IsNil() {
-		// field of a struct a helper returned: Field(call, i), or a load of &local.f with local = call
+		// field of a struct a helper returned: Field(call, i), or a load of &local.f with local = call;
+		// or one result of a helper with several (`msg, rejection := screen(frame); if rejection != nil`)
 		switch f := x.(type) {
+		case *ssa.Extract:
+			if call, ok := f.Tuple.(*ssa.Call); ok {
+				if h := StaticCallee(&call.Call); PrivateHelper(h) && h.Signature.Results().Len() > 1 {
+					return call, verdictTest{kind: "result", pol: eq, field: f.Index}, true
+				}
+			}
 		case *ssa.Field:
 			if call, ok := LoadedValue(f.X).(*ssa.Call); ok {
 				if h := StaticCallee(&call.Call); PrivateHelper(h) && h.Signature.Results().Len() == 1 {
@@ -530,6 +537,16 @@ func spliceVerdicts(paths [][]Cond, chain []*ssa.Call, depth int) [][]Cond {
 							if (n == 1 && t.pol) || (n == -1 && !t.pol) {
 								consistent = false
 							}
+						case "result":
+							rvs := ReturnValues(LastInstr(rb).(*ssa.Return))
+							if t.field >= len(rvs) {
+								known = false
+								continue
+							}
+							n := nilness(rvs[t.field], 0)
+							if (n == 1 && t.pol) || (n == -1 && !t.pol) {
+								consistent = false
+							}
 						}
 					}
 					if !consistent {
@@ -573,6 +590,13 @@ func SpliceVerdicts(conds []Cond) [][]Cond {
 func FieldOfHelperResult(v ssa.Value) (call *ssa.Call, field int, ok bool) {
 	v = LoadedValue(Unwrap(v))
 	switch f := v.(type) {
+	case *ssa.Extract:
+		// result #i of a helper with several results
+		if c, isCall := f.Tuple.(*ssa.Call); isCall {
+			if h := StaticCallee(&c.Call); PrivateHelper(h) && h.Signature.Results().Len() > 1 {
+				return c, f.Index, true
+			}
+		}
 	case *ssa.Field:
 		if c, isCall := LoadedValue(f.X).(*ssa.Call); isCall {
 			if h := StaticCallee(&c.Call); PrivateHelper(h) && h.Signature.Results().Len() == 1 {
@@ -609,6 +633,19 @@ func ResultFieldPaths(call *ssa.Call, field int) (paths []string, ok bool) {
 
 func resultFieldPaths(h *ssa.Function, chain []*ssa.Call, field int, depth int) ([]string, bool) {
 	var out []string
+	if h.Signature.Results().Len() > 1 {
+		// several results: "field" is the result's index
+		for _, rb := range ReturnBlocks(h) {
+			rvs := ReturnValues(LastInstr(rb).(*ssa.Return))
+			if field >= len(rvs) {
+				return nil, false
+			}
+			if rv := rvs[field]; !IsNilConst(Unwrap(rv)) {
+				out = append(out, PathOfChain(rv, chain))
+			}
+		}
+		return out, true
+	}
 	for _, rb := range ReturnBlocks(h) {
 		rv := LoadedValue(ReturnValues(LastInstr(rb).(*ssa.Return))[0])
 		switch x := rv.(type) {
